@@ -115,6 +115,11 @@ def _ops():
                                                                     lambda s, sp: s.body.insert(s.index, A(_fresh(s.names), "short", 2))))
     op("required-after-optional", "required-length-after-optional")((lambda s, sp: s.opt and not _dummy_before(s),
                                                                      lambda s, sp: _insert_length_pair(s)))
+    # ... where the only optional item so far is a <length>
+    op("required-after-optional", "required-field-right-after-first-optional-length")((lambda s, sp: s.index > 0 and s.body[s.index - 1].kind == "length" and s.body[s.index - 1].optional and not _dummy_before(s) and not any(getattr(i, "optional", False) for i in s.body[:s.index - 1]),
+                                                                                       lambda s, sp: s.body.insert(s.index, F(_fresh(s.names), "char"))))
+    op("required-after-optional", "length-made-optional-before-required-items")((lambda s, sp: s.ins is not None and s.ins.kind == "length" and not s.ins.optional and not s.opt and not _dummy_before(s),
+                                                                                 lambda s, sp: _optional_length_then_required(s)))
     op("required-after-optional", "unnamed-after-optional")((lambda s, sp: s.opt and not _dummy_before(s),
                                                              lambda s, sp: s.body.insert(s.index, F(None, "char", value="7"))))
     op("required-after-optional", "optional-flag-dropped-later")((lambda s, sp: s.ins is not None and s.ins.kind in ("field", "array") and s.ins.optional and s.opt,
@@ -261,6 +266,16 @@ def _unsuitable(v, sp):
         return True
     t = sp.types().get(base)
     return t is not None and not hasattr(t[0], "values")
+
+
+def _optional_length_then_required(s):
+    """The length becomes the first optional item of its body (its referrer follows suit), and a required field is put
+    right behind it."""
+    s.ins.optional = True
+    for later in s.body[s.index + 1:]:
+        if later.kind in ("field", "array") and later.length == s.ins.name:
+            later.optional = True
+    s.body.insert(s.index + 1, S.Field(_fresh(s.names), "char"))
 
 
 def _near_miss(name, members):
